@@ -171,3 +171,17 @@ Example cancel_uids_fresh_example : forall fx,
 Proof.
   intros [|]; (split; [vm_compute; auto|]); intros c' H; vm_compute in H; inversion H; subst; vm_compute; auto.
 Qed.
+
+(* ---------- finding F6: wait_connected() after its caller gave up ------------------------------------------------- *)
+(* [wait_connected a; a's caller is cancelled (timeout, task.cancel()); wait_connected b]: the waiter of a is still
+   registered (the shield left it alone, which is what keeps the adapter consistent), nobody awaits it any more
+   (caller_outcome 0 = OCancelled), and b runs into `assert self._connected_waiter is None`: it finishes with
+   AssertionError -- neither success nor a connection error.  Holds for both values of fx and of sh. *)
+Definition wc_after_cancel_witness : list cop := [CBase OWaitConnected; CCancel 0].
+
+Lemma wait_connected_after_cancel_refuted_l : forall sh fx,
+  let c := crun sh fx cinit wc_after_cancel_witness in
+  caller_outcome c 0 = OCancelled /\
+  closed (base c) = false /\ connected (base c) = false /\
+  fst (fst (cstep sh fx c (CBase OWaitConnected))) = Some X_ALREADY_AWAITING.
+Proof. intros [|] [|]; vm_compute; repeat split. Qed.
